@@ -1,8 +1,62 @@
 (* C03: blocks nested to any depth restore the state at their entry. *)
 From Coq Require Import ZArith QArith Qcanon List Bool Lia FunctionalExtensionality.
-From Cobra.Core Require Import Model Inv Preserve RestoreBase RestoreOps.
+From Cobra.Core Require Import Model Inv Preserve RestoreBase RestoreOps RestoreStruct.
 Import ListNotations.
 Open Scope Z_scope.
+
+(* ---------- operations a block may contain ---------- *)
+Definition ctx_ok (s : st) (o : op) : Prop :=
+  match o with
+  | SetBounds r _ _ | SetLb r _ | SetUb r _ | KnockOut r => rin s r = true
+  | SetDir _ | SetObj _ | SetObjCoef _ _ => True
+  | AddMet _ | RemoveRxn _ _ => True
+  | AddRxn r => In r (rids s)
+  | _ => False
+  end.
+
+Lemma ctx_ok_op_ok s o : ctx_ok s o -> op_ok s o.
+Proof. destruct o; cbn; intros H; try contradiction; split; cbn; auto. Qed.
+
+Lemma step_undone s o : Inv s -> V s -> ctx_ok s o -> undone s (fst (step s o)).
+Proof.
+  intros HI HV Hok. destruct o; cbn [ctx_ok] in Hok; try contradiction; cbn [step].
+  - cbn [fst]. apply add_rxn_undone; assumption.
+  - cbn [fst]. apply remove_rxn_undone; assumption.
+  - apply add_met_undone; assumption.
+  - apply set_bounds_undone; assumption.
+  - apply set_lb_undone; assumption.
+  - apply set_ub_undone; assumption.
+  - apply set_bounds_undone; assumption.
+  - apply set_obj_undone; assumption.
+  - destruct (rin s r); [apply set_obj_undone; assumption|apply undone_refl].
+  - cbn [fst]. apply set_dir_undone.
+Qed.
+
+(* the structural operations do not touch any bound *)
+Lemma add_rxn_bounds r s : lb (add_rxn r s) = lb s /\ ub (add_rxn r s) = ub s.
+Proof.
+  unfold add_rxn. destruct (rin s r); [split; reflexivity|]. rewrite lb_record_all, ub_record_all.
+  unfold add_rxn_content. destruct (split_bounds _ _) as [[? ?] [? ?]]. split; reflexivity.
+Qed.
+Lemma remove_rxn_bounds r o s : lb (remove_rxn r o s) = lb s /\ ub (remove_rxn r o s) = ub s.
+Proof.
+  unfold remove_rxn. destruct (negb (rin s r)); [split; reflexivity|]. rewrite lb_record_all, ub_record_all. split; reflexivity.
+Qed.
+
+Lemma step_V s o : V s -> ctx_ok s o -> V (fst (step s o)).
+Proof.
+  intros HV Hok. destruct o; cbn [ctx_ok] in Hok; try contradiction; cbn [step].
+  - cbn [fst]. intros r0. destruct (add_rxn_bounds r s) as [X Y]. rewrite X, Y. apply HV.
+  - cbn [fst]. intros r0. destruct (remove_rxn_bounds r orphans s) as [X Y]. rewrite X, Y. apply HV.
+  - destruct (min s m); [exact HV|]. cbn [fst]. intros r0. unfold model_add_mets. rewrite lb_record_all, ub_record_all. apply HV.
+  - apply set_bounds_V; assumption.
+  - apply set_lb_V; assumption.
+  - apply set_ub_V; assumption.
+  - apply set_bounds_V; assumption.
+  - apply set_obj_V; assumption.
+  - destruct (rin s r); [apply set_obj_V; assumption|exact HV].
+  - cbn [fst]. unfold set_dir. destruct (_ && _); [exact HV|]. intros r0. cbn. destruct (in_ctx s); recs; apply HV.
+Qed.
 
 (* ---------- blocks, nested to any depth ---------- *)
 Inductive item := Op (o : op) | Block (l : list item).
